@@ -503,6 +503,17 @@ def _has_star(q):
     return False
 
 
+def _selects(q):
+    """the SELECTs a query consists of at its own level (set-operation branches, WITH body), not its sub-queries"""
+    if isinstance(q, Select):
+        return [q]
+    if isinstance(q, SetOp):
+        return [s for b in q.branches for s in _selects(b)]
+    if isinstance(q, With):
+        return _selects(q.body)
+    return []
+
+
 def _rel_outputs(rel, env, ds, notes):
     if rel.kind == "derived":
         return rel.query.outputs(env, ds, notes)
@@ -592,16 +603,24 @@ class SetOp:
 class With:
     """WITH w1 as (...), w2 as (...) <body>"""
 
-    def __init__(self, ctes, body):
-        self.ctes, self.body = ctes, body  # ctes: [(name, query)]
+    def __init__(self, ctes, body, recursive=False):
+        self.ctes, self.body, self.recursive = ctes, body, recursive  # ctes: [(name, query)]
 
     def render(self, r):
-        return "with " + ", ".join(f"{r.ident(n)} as ({q.render(r)})" for n, q in self.ctes) + " " + self.body.render(r)
+        return ("with recursive " if getattr(self, "recursive", False) else "with ") + ", ".join(f"{r.ident(n)} as ({q.render(r)})" for n, q in self.ctes) + " " + self.body.render(r)
 
     def env(self, ds=None, notes=None, env=None):
         env = dict(env or {})
         for n, q in self.ctes:
-            env[n] = q.outputs(env, ds, notes)
+            if any(rel.kind == "cte" and rel.name == n for s in _selects(q) for rel in s.rels()):
+                # a CTE that references itself: its columns are what its branches put there - least fixed point, two rounds suffice for
+                # the generated shapes (anchor branch + one recursive branch)
+                env[n] = []
+                for _ in range(3):
+                    env[n] = q.outputs(env, ds, set())
+                env[n] = q.outputs(env, ds, notes)
+            else:
+                env[n] = q.outputs(env, ds, notes)
         return env
 
     def reads(self, ds=None):
